@@ -27,8 +27,23 @@ def ntop(b):
     return _real_socket.inet_ntop(_real_socket.AF_INET6, b)
 
 
+def norm_ip(ip):
+    """One spelling per address (an IPv4-mapped address comes in two: ::ffff:10.0.0.1 and ::ffff:a00:1)."""
+    try:
+        return ntop(pton(ip.split("%", 1)[0]))
+    except (OSError, ValueError):
+        return ip
+
+
 def is_mcast(ip):
-    return ip.lower().startswith("ff")
+    ip = ip.lower()
+    if ip.startswith("::ffff:") and "." in ip:
+        # IPv4-mapped: 224.0.0.0/4
+        try:
+            return 224 <= int(ip[7:].split(".")[0]) <= 239
+        except ValueError:
+            return False
+    return ip.startswith("ff")
 
 
 def fmt(addr):
@@ -50,6 +65,9 @@ class SimSocket:
     def setsockopt(self, level, opt, value):
         if level == IPPROTO_IPV6 and opt == _real_socket.IPV6_JOIN_GROUP:
             self.groups.add(ntop(value[:16]))
+        elif level == _real_socket.IPPROTO_IP and opt == _real_socket.IP_ADD_MEMBERSHIP:
+            # dual-stack socket: the IPv4 group is seen as an IPv4-mapped address
+            self.groups.add("::ffff:" + _real_socket.inet_ntoa(value[:4]))
 
     def setblocking(self, flag):
         pass
@@ -194,6 +212,7 @@ class SimNet:
             # implicit bind like the kernel does
             sock.bind(("::", 0))
         src = (src_ip or sock.addr[0], sock.addr[1])
+        dst = (norm_ip(dst[0]), dst[1])
         key = "senderr:%s>%s" % (fmt(src), fmt(dst))
         gen = self.sim.gens.get("senderr")
         if gen is not None or self.decider.replaying:
@@ -341,7 +360,7 @@ class SimNet:
                 pton(v)
             except OSError:
                 raise _real_socket.gaierror(-2, "Name or service not known")
-            yield (v, port, 0, 0)
+            yield (norm_ip(v), port, 0, 0)  # as the C library spells it
 
         return getaddrinfo
 
